@@ -14,8 +14,10 @@ static int cv_ret_int; static long cv_ret_long; static size_t cv_ret_size; stati
 static int idx(FILE* h) { return h == &cv_pool[0] ? 0 : h == &cv_pool[1] ? 1 : h == &cv_pool[2] ? 2 : -1; }
 static int is_open(FILE* h) { int i = idx(h); return i >= 0 && cv_open[i]; }
 #define NEED_OPEN(h, what) do { cv_calls++; if (!is_open(h)) cv_bad_handle++; __CPROVER_assert(is_open(h), what " on an open handle only (never a stale or NULL handle)"); } while (0)
+static FILE* cv_owned;      /* the stream the File object under test held when the operation started */
 FILE* fopen(const char* name, const char* mode) {
   cv_calls++; cv_fopen_calls++; cv_fopen_name = name; cv_fopen_mode = mode;
+  __CPROVER_assert(cv_owned == NULL || !is_open(cv_owned), "[C20] reopening closes the previous stream before the new one is opened (no two streams of one File at once, buffered data is flushed first)");
   if (nondet_bool()) return NULL;
   int i = nondet_int(); __CPROVER_assume(i >= 0 && i < 3 && !cv_open[i]);
   cv_open[i] = 1; return &cv_pool[i];
@@ -42,7 +44,7 @@ static void arbitrary_file(void) {
   cv_open[0] = nondet_bool(); cv_open[1] = nondet_bool(); cv_open[2] = nondet_bool();   /* other streams of the program */
   in_state = nondet_int(); __CPROVER_assume(in_state >= 0 && in_state <= 3);
   if (in_state == 0) { f->file = NULL; } else { f->file = &cv_pool[in_state - 1]; cv_open[in_state - 1] = 1; }
-  old_file = f->file;
+  old_file = f->file; cv_owned = f->file;
   cv_ret_int = nondet_int(); cv_ret_long = nondet_long(); cv_ret_size = nondet_ulong(); cv_feof_ret = nondet_int();
 }
 void cv_on_throw(var obj) {
